@@ -675,6 +675,11 @@ pub struct Corpus {
 }
 
 pub fn gen_corpus(seed: u64, n_fam: usize, q_per_fam: usize) -> Corpus {
+    gen_corpus_with(seed, n_fam, q_per_fam, true)
+}
+
+/// `adv`: every fourth family uses the adversarial member names (quotes, backslashes, controls).
+pub fn gen_corpus_with(seed: u64, n_fam: usize, q_per_fam: usize, adv: bool) -> Corpus {
     let mut contents: Vec<String> = vec![];
     let mut families = vec![];
     let mut queries: Vec<String> = vec![];
@@ -682,7 +687,7 @@ pub fn gen_corpus(seed: u64, n_fam: usize, q_per_fam: usize) -> Corpus {
     let mut q_other_family = vec![];
     for f in 0..n_fam {
         let mut rng = Rng::new(derive(seed, "c12doc", f as u64));
-        let names: &[&str] = if f % 4 == 3 { gen::NAMES_ADV } else { gen::NAMES_PLAIN };
+        let names: &[&str] = if adv && f % 4 == 3 { gen::NAMES_ADV } else { gen::NAMES_PLAIN };
         let p = DocParams { max_nodes: 8 + rng.below(23), max_depth: 1 + rng.below(4), names, max_width: 4 };
         let mut base = gen::gen_doc(&mut rng, &p);
         if f % 5 == 0 {
@@ -1250,7 +1255,7 @@ pub fn tier(name: &str) -> TierCfg {
     }
 }
 
-fn par_map<T: Send + Sync, R: Send>(items: &[T], workers: usize, f: impl Fn(&T) -> R + Sync) -> Vec<R> {
+pub fn par_map<T: Send + Sync, R: Send>(items: &[T], workers: usize, f: impl Fn(&T) -> R + Sync) -> Vec<R> {
     let next = std::sync::atomic::AtomicUsize::new(0);
     let out: Mutex<Vec<(usize, R)>> = Mutex::new(Vec::with_capacity(items.len()));
     std::thread::scope(|s| {
